@@ -1,11 +1,12 @@
 """C16 -- diagrams draw the quantities their definitions prescribe (partial).
 
 Kernel: Output.plot and _plot_core of the standard line plot, obsfcst, qq,
-sort, hist and freq diagrams, on a real Data object with symbolic cells.
+sort, hist, freq (harness `diagrams`) and qq with -x/-q, scatter, error, change,
+cond, marginal, timeseries (`diagrams2.*`), on a real Data object with symbolic cells.
 Boundary: matplotlib.pyplot is a recording stub -- the claim concerns the x / y
 arrays handed to plot()/bar(), one series per input in command-line order, and
 that every valid case falls in exactly one bin of a binned diagram.
-NOT decided: the other 22 diagrams, maps, rank and impact views, and whether
+NOT decided: the other 15 diagrams, maps, rank and impact views, and whether
 matplotlib draws what it is given."""
 import numpy as np
 
@@ -16,7 +17,8 @@ from harness import common, ref
 from harness.c07 import event
 
 BOUNDS = {
-    "quick": {"dataset": "2 inputs, 2 times x 1 lead time x 2 locations, real cells; three cells of the first input may be NaN", "diagrams": "standard (mae along location/time/no), obsfcst on the full shape; qq, sort on 3 x 1 x 1; hist, freq on 2 x 1 x 1",
+    "quick": {"dataset": "2 inputs, 2 times x 1 lead time x 2 locations, real cells; three cells of the first input may be NaN", "diagrams": "standard (mae along location/time/no), obsfcst on the full shape; qq, sort on 3 x 1 x 1; hist, freq on 2 x 1 x 1; "
+                          "diagrams2: qq with -x/-q, scatter, error, marginal on 2 x 1 x 2, change on 3 x 1 x 1, cond on 2 x 1 x 1 (second input concrete, edges 0,1,2), timeseries on 2 x 2 x 2",
               "bins": "3 symbolic increasing thresholds (within=)"},
     "thorough": {"dataset": "2 inputs, 2 x 2 x 2", "diagrams": "same", "bins": "same"},
 }
@@ -208,6 +210,273 @@ def run(S, which, T, L, P):
                 S.prove("bin-height=%s" % which, S.same(ys[b], w), twin=S.same(ys[b], w + 1))
 
 
+DIAGRAMS2 = ["qq+quantiles/location", "qq+quantiles/no", "scatter/no", "scatter/location", "error/location", "change", "cond", "marginal/above", "marginal/below", "timeseries"]
+
+
+def h_diagrams2(which, big):
+    """Seven more diagrams, same boundary (pyplot recording stub), each on the
+    smallest dataset on which its statistic is not trivial."""
+    def fn(S):
+        return run2(S, which, big)
+    return fn
+
+
+def run2(S, which, big):
+    data = load.modules["verif.data"]
+    metric = load.modules["verif.metric"]
+    out = load.modules["verif.output"]
+    util = load.modules["verif.util"]
+    ax = load.modules["verif.axis"]
+    f = load.modules["verif.field"]
+    MI = common.input_class()
+    T, L, P = {"scatter/no": (2, 1, 2), "scatter/location": (2, 1, 2), "error/location": (2, 1, 2), "change": (3, 1, 1),
+               "cond": (2, 1, 1), "qq+quantiles/location": (2, 1, 2), "qq+quantiles/no": (2, 1, 1), "marginal/above": (2, 1, 2), "marginal/below": (2, 1, 2), "timeseries": (2, 2, 2)}[which]
+    if big and which in ("scatter/no", "scatter/location"):
+        L = 2
+    if big and which == "cond":
+        T = 3
+    shape = (T, L, P)
+    cells = list(np.ndindex(*shape))
+    raw, ins, rawp = [], [], []
+    THR = [1.0, 2.5]
+    lts = [0.0, 24.0][:L]
+    for nm in ("A", "B"):
+        if which == "cond" and nm == "B":
+            # the number of paths is 4^(number of symbolic values): the second input of this diagram is concrete
+            # (one value exactly on an edge), the first is symbolic
+            obs = S.const(np.array([0.5, 1.0, 1.75][:T], dtype=float).reshape(shape))
+            fcst = S.const(np.array([1.5, 0.25, 2.0][:T], dtype=float).reshape(shape))
+        else:
+            obs, fcst = S.array(nm + ".obs", shape, nan=False), S.array(nm + ".fcst", shape, nan=False)
+            if nm == "A":
+                obs[cells[0]] = S.real("A.obs?", nan=True)
+                fcst[cells[1]] = S.real("A.fcst?", nan=True)
+            else:
+                fcst[cells[-1]] = S.real("B.fcst?", nan=True)
+        raw.append((obs, fcst))
+        kw = {}
+        if which.startswith("qq+quantiles"):
+            xq = S.array(nm + ".q", shape + (2,), nan=False)
+            if nm == "B":
+                xq[cells[-1] + (0,)] = S.real("B.q?", nan=True)
+            kw = {"quantiles": S.const([0.1, 0.9]), "quantile_scores": xq}
+            rawp.append(xq)
+        if which.startswith("marginal"):
+            pr = S.array(nm + ".p", shape + (2,), nan=False)
+            if nm == "B":
+                pr[cells[0] + (1,)] = S.real("B.p?", nan=True)
+            kw = {"thresholds": S.const(THR), "threshold_scores": pr}
+            rawp.append(pr)
+        ins.append(MI(nm + ".txt", common.int_array(S, [86400 * i for i in range(T)]), S.vector(lts),
+                      common.locations(list(range(1, P + 1))), obs=obs.copy(), fcst=fcst.copy(), **kw))
+    D = data.Data(ins)
+
+    def valid(c, need_obs=True, need_fcst=True, extra=None):
+        conds = []
+        for k, (o, fc) in enumerate(raw):
+            if need_obs:
+                conds.append(S.not_(S.isnan(o[c])))
+            if need_fcst:
+                conds.append(S.not_(S.isnan(fc[c])))
+            if extra is not None:
+                conds.append(S.not_(S.isnan(rawp[k][c + (extra,)])))
+        return bool(S.all(conds))
+    common_cells = [c for c in cells if valid(c)]
+    if which == "cond":
+        t = [0.0, 1.0, 2.0]
+    else:
+        t = [S.real("r%d" % i, lo=-10, hi=10) for i in range(3)]
+    if which == "change":
+        S.assume(S.and_(t[0] < t[1], t[1] < t[2]))
+    if which.startswith("qq+quantiles"):
+        pl = out.QQ()
+        pl.quantiles = [0.1, 0.9]
+        pl.axis = ax.No() if which.endswith("/no") else ax.Location()
+    elif which.startswith("scatter"):
+        pl = out.Scatter()
+        pl.simple = True
+        pl.axis = ax.No() if which.endswith("/no") else ax.Location()
+    elif which == "error/location":
+        pl = out.Error()
+        pl.axis = ax.Location()
+    elif which == "change":
+        pl = out.Change()
+        pl.thresholds = S.vector(t)
+    elif which == "cond":
+        pl = out.Cond()
+        pl.thresholds = S.vector(t)
+    elif which.startswith("marginal"):
+        pl = out.Marginal()
+        pl.thresholds = S.const(THR)
+        pl.bin_type = which.split("/")[1]
+    else:
+        pl = out.TimeSeries()
+    stub = mplstub.Pyplot()
+    saved = (out.mpl, util.mpl)
+    out.mpl = stub
+    util.mpl = stub
+    try:
+        pl.plot(D)
+    finally:
+        out.mpl, util.mpl = saved
+    calls = stub.calls
+    plots = calls.find("mpl", "plot")
+    series = [c for c in plots if c[3].get("label") in ("A.txt", "B.txt")]
+    names = ("A.txt", "B.txt")
+
+    def mean(xs):
+        return ref.r_mean(S, xs) if xs else float("nan")
+
+    def same_list(got, want):
+        got = S.elements(got)
+        return len(got) == len(want) and bool(S.all(S.same(a, b) for a, b in zip(got, want)))
+
+    if which.startswith("qq+quantiles"):
+        # cases need obs, fcst and both quantiles of every input
+        sel = [q for q in common_cells if all(valid(q, extra=e) for e in (0, 1))]
+        groups = [[q for q in sel if q[2] == p] for p in range(P)] if which.endswith("/location") else [[q] for q in sel]
+        if not groups:
+            return      # no valid case at all: what an empty diagram shows is not prescribed
+        for k, nm in enumerate(names):
+            det = [c for c in plots if c[3].get("label") == nm + " (deterministic)"]
+            S.prove("one-deterministic-curve-per-input", len(det) == 1, detail=nm)
+            if len(det) == 1:
+                wx = ref.r_sorted(S, [mean([raw[k][0][q] for q in g]) for g in groups]) if groups else []
+                wy = ref.r_sorted(S, [mean([raw[k][1][q] for q in g]) for g in groups]) if groups else []
+                if not any(isinstance(w, float) and w != w for w in wx + wy):
+                    S.prove("qq-points=sorted-obs-vs-sorted-fcst", same_list(det[0][2][0], wx) and same_list(det[0][2][1], wy), detail=which)
+            for qi, lev in enumerate((10, 90)):
+                ql = [c for c in plots if c[3].get("label") == "%s (%d%%)" % (nm, lev)]
+                S.prove("one-curve-per-input-and-quantile", len(ql) == 1, detail="%s %d%%" % (nm, lev))
+                if len(ql) == 1:
+                    wq = [mean([rawp[k][q + (qi,)] for q in g]) for g in groups]
+                    if not any(isinstance(w, float) and w != w for w in wq):
+                        wq = ref.r_sorted(S, wq) if wq else []
+                        S.prove("quantile-curve=sorted-values-of-its-own-level", same_list(ql[0][2][1], wq),
+                                twin=same_list(ql[0][2][1], [w + 1 for w in wq]) if wq else None, detail="%s %d%%" % (nm, lev))
+        return
+    if which != "cond":
+        S.prove("one-series-per-input-in-order", [c[3]["label"] for c in series][:2] == list(names) and
+                (which == "timeseries" or len(series) == 2), detail=which)
+    if which == "scatter/no":
+        for k, c in enumerate(series[:2]):
+            S.prove("points=obs-and-fcst-of-the-common-valid-cases",
+                    same_list(c[2][0], [raw[k][0][q] for q in common_cells]) and same_list(c[2][1], [raw[k][1][q] for q in common_cells]),
+                    twin=same_list(c[2][0], [raw[k][0][q] + 1 for q in common_cells]) if common_cells else None, detail=which)
+        return
+    if which == "scatter/location":
+        for k, c in enumerate(series[:2]):
+            wx = [mean([raw[k][0][q] for q in common_cells if q[2] == p]) for p in range(P)]
+            wy = [mean([raw[k][1][q] for q in common_cells if q[2] == p]) for p in range(P)]
+            S.prove("points=aggregated-obs-and-fcst-per-slice", same_list(c[2][0], wx) and same_list(c[2][1], wy),
+                    twin=same_list(c[2][1], [w + 1 for w in wy]), detail=which)
+        return
+    if which == "error/location":
+        for k, c in enumerate(series[:2]):
+            xs, ys = S.elements(c[2][0]), S.elements(c[2][1])
+            S.prove("points-per-series", len(xs) == P and len(ys) == P, detail=which)
+            for p in range(min(P, len(xs))):
+                sel = [q for q in common_cells if q[2] == p]
+                if not sel:
+                    S.prove("empty-slice-is-nan", S.and_(S.isnan(xs[p]), S.isnan(ys[p])), detail=which)
+                    continue
+                bias = mean([raw[k][0][q] - raw[k][1][q] for q in sel])
+                mse = mean([(raw[k][0][q] - raw[k][1][q]) * (raw[k][0][q] - raw[k][1][q]) for q in sel])
+                S.prove("systematic-error=mean(obs-fcst)", S.same(ys[p], bias), twin=S.same(ys[p], bias + 1), detail=which)
+                S.prove("unsystematic-error>=0", S.or_(S.isnan(xs[p]), xs[p] >= 0), detail=which)
+                S.prove("systematic^2+unsystematic^2=mse", S.or_(S.isnan(xs[p]), S.same(xs[p] * xs[p] + ys[p] * ys[p], mse)),
+                        twin=S.same(xs[p] * xs[p] + ys[p] * ys[p], mse + 1), detail=which)
+        return
+    if which == "change":
+        bins = [(t[0], t[1]), (t[1], t[2])]
+        for k, c in enumerate(series[:2]):
+            xs, ys = S.elements(c[2][0]), S.elements(c[2][1])
+            S.prove("one-point-per-bin", len(xs) == 2 and len(ys) == 2, detail=which)
+            if len(xs) != 2:
+                continue
+            o, fc = raw[k]
+            pairs = [(q, (q[0] - 1,) + q[1:]) for q in cells if q[0] >= 1]
+            pairs = [(q, r) for q, r in pairs if q in common_cells and r in common_cells]
+            counted = 0
+            for b, (lo, hi) in enumerate(bins):
+                sel = [(q, r) for q, r in pairs if bool(S.and_(o[q] - o[r] > lo, o[q] - o[r] <= hi))]
+                counted += len(sel)
+                S.prove("bin-x=mean-obs-change", S.same(xs[b], mean([o[q] - o[r] for q, r in sel])), detail=which)
+                S.prove("bin-y=mae-of-the-cases-with-that-change", S.same(ys[b], mean([S.abs(o[q] - fc[q]) for q, r in sel])),
+                        twin=S.same(ys[b], mean([S.abs(o[q] - fc[q]) for q, r in sel]) + 1) if sel else None, detail=which)
+            inside = len([1 for q, r in pairs if bool(S.and_(o[q] - o[r] > t[0], o[q] - o[r] <= t[2]))])
+            S.prove("each-case-in-exactly-one-bin", counted == inside, detail=which)
+        return
+    if which == "cond":
+        bins = [(t[0], t[1]), (t[1], t[2])]
+        for k, nm in enumerate(names):
+            o, fc = raw[k]
+            l_of = [c for c in plots if c[3].get("label") == nm + " (F|O)"]
+            l_fo = [c for c in plots if c[3].get("label") == nm + " (O|F)"]
+            S.prove("two-curves-per-input", len(l_of) == 1 and len(l_fo) == 1, detail=nm)
+            if len(l_of) != 1 or len(l_fo) != 1:
+                continue
+            xof, of = S.elements(l_of[0][2][0]), S.elements(l_of[0][2][1])
+            fo, xfo = S.elements(l_fo[0][2][0]), S.elements(l_fo[0][2][1])
+            for b, (lo, hi) in enumerate(bins):
+                selo = [q for q in common_cells if bool(event(S, o[q], "within=", lo, hi))]
+                self_ = [q for q in common_cells if bool(event(S, fc[q], "within=", lo, hi))]
+                S.prove("F|O:y=mean-fcst-given-obs-in-bin", S.same(of[b], mean([fc[q] for q in selo])),
+                        twin=S.same(of[b], mean([fc[q] for q in selo]) + 1) if selo else None, detail=nm)
+                S.prove("O|F:x=mean-obs-given-fcst-in-bin", S.same(fo[b], mean([o[q] for q in self_])),
+                        twin=S.same(fo[b], mean([o[q] for q in self_]) + 1) if self_ else None, detail=nm)
+                wxo = ref.r_percentile(S, [o[q] for q in selo], 50) if selo else float("nan")
+                wxf = ref.r_percentile(S, [fc[q] for q in self_], 50) if self_ else float("nan")
+                S.prove("F|O:x=median-obs-in-bin", S.same(xof[b], wxo), detail=nm)
+                S.prove("O|F:y=median-fcst-in-bin", S.same(xfo[b], wxf), detail=nm)
+        return
+    if which.startswith("marginal"):
+        below = which.endswith("below")
+        obs_line = [c for c in plots if c[3].get("label") == "Observed"]
+        S.prove("one-observed-line", len(obs_line) == 1, detail=which)
+        for k, c in enumerate(series[:2]):
+            xs, ys = S.elements(c[2][0]), S.elements(c[2][1])
+            S.prove("x=thresholds", same_list(c[2][0], THR), detail=which)
+            for ti in range(2):
+                sel = [q for q in cells if valid(q, need_fcst=False, extra=ti)]
+                w = mean([rawp[k][q + (ti,)] if below else 1 - rawp[k][q + (ti,)] for q in sel])
+                S.prove("y=mean-forecast-probability-of-the-event", S.same(ys[ti], w), twin=S.same(ys[ti], w + 1) if sel else None, detail=which)
+        if len(obs_line) == 1:
+            # the observed frequency drawn is that of the last input's observations (each input has its own)
+            ys = S.elements(obs_line[0][2][1])
+            for ti in range(2):
+                sel = [q for q in cells if valid(q, need_fcst=False, extra=ti)]
+                o = raw[1][0]
+                w = S.div(S.count((o[q] < THR[ti]) if below else (o[q] > THR[ti]) for q in sel), len(sel)) if sel else float("nan")
+                S.prove("observed-frequency-of-the-event", S.same(ys[ti], w), twin=S.same(ys[ti], w + 1) if sel else None, detail=which)
+        return
+    # timeseries: one observation line over distinct valid times (first occurrence wins), one forecast line per init time and input
+    obs_line = [c for c in plots if c[3].get("label") == "obs"]
+    S.prove("one-observation-line", len(obs_line) == 1, detail=which)
+    vt = sorted(set(86400 * i + int(3600 * l) for i in range(T) for l in lts))
+    if len(obs_line) == 1:
+        xs, ys = S.elements(obs_line[0][2][0]), S.elements(obs_line[0][2][1])
+        S.prove("observation-line-one-point-per-valid-time", len(xs) == len(vt) and len(ys) == len(vt), detail=which)
+        if len(ys) == len(vt):
+            for j, v in enumerate(vt):
+                i, l = [(i, l) for i in range(T) for l in range(L) if 86400 * i + int(3600 * lts[l]) == v][0]
+                sel = [(i, l, p) for p in range(P) if valid((i, l, p), need_fcst=False)]
+                S.prove("observation-at-valid-time=mean-over-locations", S.same(ys[j], mean([raw[0][0][q] for q in sel])), detail=which)
+    lines = [c for c in plots if c[3].get("label") in ("A.txt", "B.txt", "")]
+    S.prove("one-forecast-line-per-input-and-init-time", len(lines) == 2 * T, detail=which)
+    if len(lines) == 2 * T:
+        for k in range(2):
+            for i in range(T):
+                c = lines[k * T + i]
+                xs, ys = S.elements(c[2][0]), S.elements(c[2][1])
+                S.prove("forecast-line-x=init+lead", len(xs) == L and bool(S.all(S.close(xs[l] - xs[0], lts[l] / 24.0) for l in range(L))), detail=which)
+                for l in range(L):
+                    sel = [(i, l, p) for p in range(P) if valid((i, l, p), need_obs=False)]
+                    w = mean([raw[k][1][q] for q in sel])
+                    S.prove("forecast-line-y=mean-over-locations", S.same(ys[l], w), twin=S.same(ys[l], w + 1) if sel else None, detail=which)
+
+
+
 def h_bin_helper(N):
     """util.bin(x, y, edges): bin i holds the cases with edges[i] <= x < edges[i+1];
     every case inside [first edge, last edge) is in exactly one bin."""
@@ -238,4 +507,5 @@ def h_bin_helper(N):
 def harnesses(tier):
     thorough = tier == "thorough"
     return [Harness("diagrams", h_diagrams(2, 2 if thorough else 1, 2), "draw-call arguments of 6 diagrams vs their definitions"),
+            ] + [Harness("diagrams2." + w, h_diagrams2(w, thorough), "%s diagram vs its definition" % w) for w in DIAGRAMS2] + [
             Harness("bin_helper", h_bin_helper(3 if thorough else 2), "util.bin: the binning helper of the binned diagrams")]
